@@ -29,7 +29,10 @@ def cases(tier, seed):
     for K in b["alphabets"]:
         seen = set()
         for blk in (("pmax", "kmax"), ("deep_pmax", "deep_kmax")):
-            for p, U in al.knotvectors(K, b[blk[0]], b[blk[1]]):
+            pm, km = b[blk[0]], b[blk[1]]
+            if tier == "thorough" and K != "K0" and blk[0] == "pmax":
+                pm, km = 2, 1  # the widest block (degree 3, two interior knots) on the core alphabet only
+            for p, U in al.knotvectors(K, pm, km):
                 if U in seen:
                     continue
                 seen.add(U)
